@@ -1,6 +1,7 @@
 package zv
 
 import (
+	"unicode"
 	"bytes"
 	"fmt"
 	"go/constant"
@@ -832,6 +833,50 @@ func (it *Interp) call(x *ssa.Call, get func(ssa.Value) IVal, depth int) (IVal, 
 				}
 				return IVal{K: args[0].K, S: f(args[0].S)}, nil
 			}
+		}
+	}
+	// pure character-class functions of the standard library, evaluated natively
+	if len(args) == 1 && args[0].K == ivInt {
+		r := rune(args[0].I)
+		switch name {
+		case "unicode.IsLetter":
+			return bi(unicode.IsLetter(r)), nil
+		case "unicode.IsDigit":
+			return bi(unicode.IsDigit(r)), nil
+		case "unicode.IsNumber":
+			return bi(unicode.IsNumber(r)), nil
+		case "unicode.IsUpper":
+			return bi(unicode.IsUpper(r)), nil
+		case "unicode.IsLower":
+			return bi(unicode.IsLower(r)), nil
+		case "unicode.IsSpace":
+			return bi(unicode.IsSpace(r)), nil
+		case "unicode.ToLower":
+			return IInt(int64(unicode.ToLower(r))), nil
+		case "unicode.ToUpper":
+			return IInt(int64(unicode.ToUpper(r))), nil
+		}
+	}
+	if len(args) == 2 && (args[0].K == ivStr || args[0].K == ivBytes) && args[1].K == ivInt {
+		switch name {
+		case "strings.ContainsRune", "bytes.ContainsRune":
+			return bi(strings.ContainsRune(args[0].S, rune(args[1].I))), nil
+		case "strings.IndexByte", "bytes.IndexByte":
+			return IInt(int64(strings.IndexByte(args[0].S, byte(args[1].I)))), nil
+		case "strings.IndexRune", "bytes.IndexRune":
+			return IInt(int64(strings.IndexRune(args[0].S, rune(args[1].I)))), nil
+		}
+	}
+	if len(args) == 2 && args[0].K == ivStr && args[1].K == ivStr {
+		switch name {
+		case "strings.Contains":
+			return bi(strings.Contains(args[0].S, args[1].S)), nil
+		case "strings.ContainsAny":
+			return bi(strings.ContainsAny(args[0].S, args[1].S)), nil
+		case "strings.HasPrefix":
+			return bi(strings.HasPrefix(args[0].S, args[1].S)), nil
+		case "strings.HasSuffix":
+			return bi(strings.HasSuffix(args[0].S, args[1].S)), nil
 		}
 	}
 	switch name {
